@@ -53,15 +53,20 @@ def shape_export(kind, exports):
     def sh(B):
         res = shapes.resolver(B)
         top = B.I.hget(B.st, res).fields["current_scope"]
-        root = shapes.scope(B, res, top, symbols={"outer": B.int("outer"), "s.old": B.int("old")})  # the enclosing scope is NOT the top level
+        root = shapes.scope(B, res, top, symbols={"outer": B.int("outer"), "s.old": B.int("old")},  # the enclosing scope is NOT the top level
+                            cls="a816.symbols.InternalScope" if kind == "named-in-loop" else "a816.symbols.Scope")
+        if kind == "named-in-loop":
+            kind_ = "named"
+        else:
+            kind_ = kind
         B.I.hmut(B.st, B.I.hget(B.st, res).fields["scopes"]).items.append(root)
-        if kind == "named":
+        if kind_ == "named":
             sc = shapes.scope(B, res, root, symbols={"a": B.int("va"), "b": B.int("vb")}, cls="a816.symbols.NamedScope", name="s")
         else:
             sc = shapes.scope(B, res, root, symbols={"a": B.int("va")}, cls="a816.symbols.Scope" if kind == "anon" else "a816.symbols.InternalScope", name="s")
         B.I.hmut(B.st, res).fields["current_scope"] = sc
         B.I.hmut(B.st, B.I.hget(B.st, res).fields["scopes"]).items.append(sc)
-        return {"resolver": res, "named": sc, "exports": exports if kind == "named" else False}
+        return {"resolver": res, "named": sc, "exports": exports if kind_ == "named" else False}
     return sh
 
 
@@ -70,7 +75,7 @@ def cases(E):
     for bc in [("lorom", "1"), ("lorom", "1_mirror"), ("hirom", "1"), ("lorom", "2")]:
         cs.append(Case(H + "phase_agreement_contract", f"{bc[0]}:{bc[1]}", shape_phase(bc), target=[P + "resolve_labels", P + "emit"], timeout_ms=40000))
     cs.append(Case(H + "label_node_contract", "any in-window address", shape_label, target=[N + "LabelNode.pc_after", N + "LabelNode.emit"]))
-    for kind, ex in (("named", True), ("named", False), ("anon", True), ("internal", True)):
+    for kind, ex in (("named", True), ("named", False), ("anon", True), ("internal", True), ("named-in-loop", True)):
         cs.append(Case(H + "restore_scope_export_contract", f"{kind},exports={ex}", shape_export(kind, ex), target=["a816.symbols.Resolver.restore_scope"]))
     return cs
 
